@@ -14,9 +14,63 @@ NOT_APPLICABLE = {
     "C16": "proc-macro expansion and compile-time diagnostics are executions of rustc against the proc_macro bridge; they cannot be linked into a Kani harness or encoded for an SMT solver, and two thirds of the statement are facts about compiler runs. The run-time lemmas the expansions rely on are decided under C17/C05 (DESIGN.md section 4 C16, section 9).",
 }
 
+TRUST = "Trusted: Kani 0.68 / CBMC 6.11 / CaDiCaL, rustc's MIR, the reference model in harness/src/spec.rs (xspec.rs, lk.rs) and, where listed, the std models of harness/src/stubs.rs."
+
 CLAIMS = {
+    "C01": {
+        "text": "Totality is decided as the absence of any reachable panic, arithmetic overflow, out-of-bounds access or unwinding-bound violation (= termination within the stated loop bounds) in the real parsers, getters and setters when every input byte is a solver variable: token-level language-identifier parser on 1..4 arbitrary subtags of 0..9 arbitrary bytes, byte-level from_bytes on all strings of <= 4 bytes, the extension dispatcher on arbitrary subtags, every extension-body parser and every extension getter/setter on arbitrary arguments. The solver found the unimplemented!() panic (now fixed) from a subtag of eight NUL bytes.",
+        "note": TRUST,
+    },
+    "C02": {
+        "text": "The real token-level parser entry (LanguageIdentifier::try_from_iter, shared by from_bytes/FromStr/canonicalize) is compared inside one SAT query with an independent UTS #35 recogniser/canonicaliser on k fully symbolic subtags: acceptance is exact in both directions, the parsed fields equal the reference canonical form (case, sorted unique variants, und), and the error kind is InvalidLanguage iff the first subtag is not a language. The byte-level harness adds the split predicate and empty/leading/trailing separators on all strings of <= 4 bytes.",
+        "note": TRUST,
+    },
+    "C03": {
+        "text": "The locale parser is decided compositionally along its own structure: (a) each extension-body parser (-u-, -t-, -x-) on length-profiled frames (lengths concrete from the boundary classes, every byte symbolic) must produce exactly the reference value and leave exactly the subtags the reference says cannot continue the body; (b) the dispatcher on a fully symbolic subtag must reject everything that is not a singleton t/u/x (or empty / other singleton, where the property allows either); (c) composition frames through the whole extension map check repeated singletons, ordering and that nothing is dropped.",
+        "note": TRUST,
+    },
+    "C04": {
+        "text": "to_string() of symbolically constructed values (real Display + core::fmt executed by CBMC) is compared byte for byte with the reference canonical serialiser and re-checked by the strict canonical recogniser; canonicalize at token level equals the reference canonicalisation and is never longer than its input.",
+        "note": TRUST,
+    },
+    "C05": {
+        "text": "Round trip parse(to_string(x)) == x is executed symbolically end to end for every subtag type and for language identifiers, and compositionally for locales: the serialiser's token sequence is fed back through the real token-level parsers and must give an equal value, including the t-fields-then-u/x shape the serialiser emits.",
+        "note": TRUST,
+    },
+    "C06": {
+        "text": "maximize is compared with an independent reference cascade over tables re-derived from data/likelySubtags.json on every run: every CLDR entry K -> V by a symbolic row index (all rows at once, no loop), and every valid (language, script?, region?) against the reference's own binary search; the bool/None clause and the LanguageIdentifier wrapper are asserted too.",
+        "note": TRUST + " Reference tables come from tools/cldr_ref.py (own JSON -> integer packer); C18 decides the compiled tables equal them.",
+    },
+    "C07": {
+        "text": "Purely algebraic laws of the real maximize on every valid symbolic triple: given subtags kept, all three present afterwards, bool <=> found, false => unchanged, variants untouched; idempotence follows from 'all three present afterwards' plus the separately decided 'a full triple is a fixed point'.",
+        "note": TRUST,
+    },
+    "C11": {
+        "text": "matches() of the real code equals the field-wise wildcard formula for every pair of symbolic identifiers (any valid language or und, optional script, optional region, 0..2 variants per side) and all four flag pairs; the derived laws (equality without flags, symmetry with swapped flags, reflexivity, monotonicity) are asserted on the real function as well; Language::matches separately.",
+        "note": TRUST,
+    },
+    "C12": {
+        "text": "==, cmp, partial_cmp and Hash of LanguageIdentifier are compared with a field-by-field reference (absent first) on symbolic pairs and triples; x == y iff to_string equal (real Display); comparison with &str iff the string is the canonical text, for every ASCII string of <= 16 bytes.",
+        "note": TRUST + " Hash is decided for a fixed FNV-1a hasher defined in the harness.",
+    },
+    "C13": {
+        "text": "Both token-level entries are run on the same fully symbolic subtags: whenever LanguageIdentifier accepts, Locale accepts with an identical id and no extensions; conversions LanguageIdentifier <-> Locale and AsRef are identities on symbolic values.",
+        "note": TRUST,
+    },
+    "C14": {
+        "text": "character_direction is decided against a model re-derived from the 710 CLDR layout files: every locale directory by symbolic row index in both feature configurations, plus the script-decides / non-RTL-language / variants-irrelevant clauses on arbitrary symbolic identifiers.",
+        "note": TRUST + " Reference derived by tools/cldr_ref.py.",
+    },
     "C15": {
         "text": "For each of Language, Script, Region, Variant the solver decides, over every byte string of length 0..=9 (all 256 byte values, no ASCII assumption), that from_bytes succeeds exactly on the UTS #35 production and that the stored text is the case-folded input; the reference recogniser is 10 lines of byte loops written from the EBNF. This is the property's whole quantifier up to length 9, which sampling cannot cover (2^72 inputs per type).",
-        "note": "Trusted: Kani/CBMC/CaDiCaL, the reference recogniser in harness/src/spec.rs.",
+        "note": TRUST,
+    },
+    "C17": {
+        "text": "Integer form <-> subtag round trips, text integrity and injectivity for every valid subtag of each type (all inputs the checked constructor accepts); from_parts(into_parts(x)) == x; from_parts on symbolic variant arrangements (any order, duplicates) equals the reference canonical value that the parser is also shown to produce (C02).",
+        "note": TRUST,
+    },
+    "C18": {
+        "text": "Every row of all six compiled likely-subtags tables and all four direction tables is compared, by symbolic row index, with an independent re-derivation from the CLDR JSON files: same keys, same values, strictly increasing in the binary search's key order, every stored integer decodes through the checked constructor and re-encodes to itself, every value has language+script+region; direction tables equal the reference sets in both directions; CLDR_VERSION equals the data's.",
+        "note": TRUST + " The 7143-row table is flattened into integer columns by rustc's constant evaluator from the compiled static itself (harness/src/c18.rs) because CBMC cannot index 40-byte tuples symbolically at that size.",
     },
 }
